@@ -38,10 +38,10 @@ func canonStable(p interface{}) string {
 }
 
 func usesNoCoding(p interface{}) bool {
-	if _, ok := p.(*pdu.ReplaceSM); ok {
+	v := reflect.ValueOf(p).Elem()
+	if observePrepare(v.Type()).isReplace {
 		return false
 	}
-	v := reflect.ValueOf(p).Elem()
 	for i := 0; i < v.NumField(); i++ {
 		if m, ok := v.Field(i).Interface().(pdu.ShortMessage); ok && m.DataCoding == coding.NoCoding {
 			return true
